@@ -124,6 +124,24 @@ func (c *VCheck) checkDsm(p DsmParams, st *dsmState, allNames []string) {
 		scopes = append(scopes, []string{n})
 	}
 	c.CheckRelations(p.IDs, scopes)
+	// the same lookups through the contextual store a javascript transform holds (created when the history began, or
+	// after the last restart): what it answers must be what the store answers
+	if h.Ctx0 != nil && h.Ctx0.database == h.W.Store.database {
+		for _, id := range p.IDs {
+			c.Checks++
+			a, err1 := h.W.Store.GetEntity(h.URI(id), nil, true)
+			b, err2 := h.Ctx0.GetEntity(h.URI(id), nil, true)
+			if err1 != nil || err2 != nil || (a == nil) != (b == nil) {
+				if (err1 == nil) != (err2 == nil) || (a == nil) != (b == nil) {
+					c.fail("C07:contextual-store-differs:"+id, fmt.Sprintf("unscoped lookup of %s: the store answers (%v, %v), a contextual store created earlier (%v, %v)", id, a != nil, err1, b != nil, err2), nil)
+				}
+				continue
+			}
+			if a != nil && !contentEq(h.AbsContent(a), h.AbsContent(b)) {
+				c.fail("C07:contextual-store-differs:"+id, fmt.Sprintf("unscoped lookup of %s: the store answers %s, a contextual store created before the last delete answers %s (a javascript transform keeps such a store for the life of its job)", id, h.AbsContent(a), h.AbsContent(b)), nil)
+			}
+		}
+	}
 	// point-in-time lookups must not resurrect deleted datasets either
 	for _, in := range st.instants {
 		for _, id := range p.IDs {
